@@ -25,12 +25,28 @@ RULE = ('a case is (construction, immutability mode, history); histories are '
 ASSUMPTIONS = ['for immutable_warranty="copy" the original container is not '
                'mutated (the statement exempts it)']
 SHARD_TIMEOUT = {'quick': 300, 'thorough': 3000}
-LIMITS = {'quick': dict(L=2, stride2=5, nrand=40, disk_hist=25),
+LIMITS = {'quick': dict(L=2, stride2=16, nrand=24, disk_hist=20),
           'thorough': dict(L=3, stride2=1, nrand=1500, disk_hist=600)}
 
 
 def example(i):
-    return {'id': i, 'l': [i, [i]], 'd': {'k': i}}
+    return {'id': i, 'l': [i, [i]], 'd': {'k': i},
+            'a': np.arange(4, dtype=np.int64) + i,
+            'b': bytearray([i, i + 1]), 'f': np.full((2, 2), float(i))}
+
+
+def deq(x, y):
+    """Deep equality that understands numpy arrays."""
+    if isinstance(x, np.ndarray) or isinstance(y, np.ndarray):
+        return (isinstance(x, np.ndarray) and isinstance(y, np.ndarray)
+                and x.dtype == y.dtype and x.shape == y.shape and np.array_equal(x, y))
+    if type(x) is not type(y):
+        return False
+    if isinstance(x, dict):
+        return x.keys() == y.keys() and all(deq(x[k], y[k]) for k in x)
+    if isinstance(x, (list, tuple)):
+        return len(x) == len(y) and all(deq(a, b) for a, b in zip(x, y))
+    return x == y
 
 
 CONSTRUCTIONS = (
@@ -55,7 +71,7 @@ CONSTRUCTIONS = (
 ACCESS = ('idx+', 'idx-', 'npidx', 'key', 'iter', 'items', 'slice-iter',
           'copy-idx', 'copy-iter', 'old-alias')
 MUTATORS = ('append-inner', 'overwrite-nested', 'clear', 'del-key', 'extend-deep',
-            'container')
+            'array-inplace', 'array-fill-bytes', 'container')
 
 
 class World:
@@ -145,6 +161,7 @@ class World:
             for ex in vals:
                 ex['l'].append('c')
                 ex['d']['k'] = 'c'
+                ex['a'] += 100
                 did += 1
             if isinstance(c, dict):
                 c['extra'] = example(99)
@@ -167,6 +184,20 @@ class World:
                 o.clear()
             elif mut == 'del-key':
                 o.pop('id', None)
+            elif mut == 'array-inplace':
+                arr = o.get('a')
+                if isinstance(arr, np.ndarray) and arr.size and arr.flags.writeable:
+                    arr *= 3
+                    arr[0] = -7
+                else:
+                    o['a'] = 'm'
+            elif mut == 'array-fill-bytes':
+                f = o.get('f')
+                if isinstance(f, np.ndarray) and f.flags.writeable:
+                    f.fill(-1.0)
+                bb = o.get('b')
+                if isinstance(bb, bytearray):
+                    bb[0:1] = b'\xff'
             elif mut == 'extend-deep':
                 l = o.get('l')
                 if isinstance(l, list) and len(l) > 1 and isinstance(l[1], list):
@@ -182,8 +213,8 @@ class World:
         out = []
 
         def eq(label, got, want):
-            if got != want:
-                out.append((label, got, want))
+            if not deq(got, want):
+                out.append((label, repr(got)[:300], repr(want)[:300]))
         eq('iter', list(ds), p)
         for i in range(n):
             eq(f'ds[{i}]', ds[i], p[i])
